@@ -29,8 +29,8 @@ ASSUMPTIONS = []
 S1B = Skel("S1B", [Opt("flag", "f", "req"), Opt("opt", "o", "flag")], [Arg("a", "opt"), Arg("b", "multi")])
 SK = dict(pfmt.SKELS)
 SK["S1B"] = S1B
-MENU = ["x", "y", "-f", "--opt=x", "-o", "--zz", ""]      # thorough
-MENU_A = ["x", "-f", "--opt=x", "-o", "--zz"]               # quick: tokens of the first line (leave state behind / fail)
+MENU = ["x", "y", "-f", "--opt=x", "-o", "--zz", "", "--"]      # thorough
+MENU_A = ["x", "-f", "--opt=x", "-o", "--zz", "--"]         # quick: tokens of the first line (leave state behind / fail / end the options)
 MENU_B = ["x", "-f", "", "--opt=x"]                         # quick: tokens of the observed line
 PAIRS = [("S1", "S1"), ("S2", "S2"), ("S1", "S1B"), ("S1B", "S1"), ("S1", "S6"), ("S4", "S4"), ("S5", "S1")]
 PAIRS_T = [("S1", "S1"), ("S1", "S1B"), ("S1B", "S1"), ("S2", "S2"), ("S4", "S4"), ("S5", "S1"), ("S3", "S3"), ("S2", "S6")]
@@ -101,6 +101,8 @@ def two_parses_twin(a2: int, b1: int, b2: int, la: bool, lb: bool) -> bool:
 
 def _listing(fmt):
     return ([c.string for c in fmt.get_command_names()], list(fmt.get_arguments()), list(fmt.get_options()),
+            list(fmt.get_options(False)), list(fmt.get_arguments(False)), [c.string for c in fmt.get_command_names(False)],
+            [fmt.has_option(o.long_name, False) for o in fmt.get_options().values()],
             [(o.long_name, o.short_name, o.flags, o.default) for o in fmt.get_options().values()],
             [(a.name, a.flags, a.default) for a in fmt.get_arguments().values()])
 
@@ -131,6 +133,26 @@ def no_mutation(t1: str, t2: str, lenient: bool) -> bool:
     except ALLOWED:
         pass
     return raw.tokens == tokens_before and raw.option_tokens == opt_before and _listing(skel.fmt) == listing and argv == snapshot + ["later"]
+
+
+def no_mutation_menu(k1: int, k2: int, lenient: bool) -> bool:
+    """
+    pre: 0 <= k1 < PART["n"] and 0 <= k2 < PART["n"]
+    post: _
+    """
+    # the same, with both tokens drawn from the format's own menu of option spellings (own AND inherited options, command names)
+    from harness.c02 import menu_for
+    skel = SK[PART["skel"]]
+    menu = menu_for(skel, False)
+    raw = ArgvArgs(["prog", _pick(k1, menu), _pick(k2, menu)])
+    tokens_before = list(raw.tokens)
+    listing = _listing(skel.fmt)
+    base_listing = _listing(skel.fmt.base_format) if skel.fmt.base_format else None
+    try:
+        DefaultArgsParser().parse(raw, skel.fmt, lenient)
+    except ALLOWED:
+        pass
+    return raw.tokens == tokens_before and _listing(skel.fmt) == listing and (base_listing is None or _listing(skel.fmt.base_format) == base_listing)
 
 
 def no_mutation_string(t1: str, t2: str, lenient: bool) -> bool:
@@ -171,6 +193,9 @@ def conditions(tier):
         for l1, l2 in ([(1, 2), (2, 2)] if quick else [(a, b) for a in range(0, 3) for b in range(0, 4)]):
             conds.append({"name": "no_mutation[%s,%d,%d]" % (sk, l1, l2), "fn": no_mutation, "timeout": t, "part": {"skel": sk, "l1": l1, "l2": l2},
                           "bounds": "argv list / ArgvArgs tokens / format listings unchanged, tokens of lengths %d,%d over {-,f,o,x,=}" % (l1, l2)})
+        from harness.c02 import menu_for
+        conds.append({"name": "no_mutation_menu[%s]" % sk, "fn": no_mutation_menu, "timeout": t, "part": {"skel": sk, "n": len(menu_for(SK[sk], False))},
+                      "bounds": "format listings (merged and own-only, of the format and of its base) unchanged by parsing any 2 tokens of the format's literal menu"})
         conds.append({"name": "no_mutation_string[%s]" % sk, "fn": no_mutation_string, "timeout": t, "part": {"skel": sk, "l1": 2, "l2": 2},
                       "bounds": "StringArgs tokens / format listings unchanged, 2 tokens of 2 chars"})
     return conds
